@@ -53,6 +53,20 @@ func NewProvider(fs filesystem.Filespace, helpersPath, layoutPath, viewPath, ext
 
 // Base return base template (with loaded helpers)
 func (provider *Provider) Base() (*template.Template, error) {
+	return provider.handOut(provider.cachedBase())
+}
+
+// handOut returns what a caller gets for a base or layout template. The html/template package
+// refuses to clone a set that has been executed, and layouts and views are clones of the cached
+// base and layout sets. A caller must not be able to execute those sets, so it gets a copy.
+func (provider *Provider) handOut(tmpl *template.Template, err error) (*template.Template, error) {
+	if err != nil || !provider.isCached {
+		return tmpl, err
+	}
+	return tmpl.Clone()
+}
+
+func (provider *Provider) cachedBase() (*template.Template, error) {
 	provider.baseMutex.RLock()
 	baseTemplate := provider.baseTemplate
 	provider.baseMutex.RUnlock()
@@ -90,6 +104,10 @@ func (provider *Provider) base() (baseTemplate *template.Template, err error) {
 
 // Layout return template for named layout (with loaded helpers and layout definitions)
 func (provider *Provider) Layout(name string) (*template.Template, error) {
+	return provider.handOut(provider.cachedLayout(name))
+}
+
+func (provider *Provider) cachedLayout(name string) (*template.Template, error) {
 	if name == "" {
 		name = goathtml.DefaultLayout
 	}
@@ -112,7 +130,7 @@ func (provider *Provider) layout(name string) (layoutTemplate *template.Template
 	if layoutTemplate, ok = provider.layouts[name]; ok {
 		return layoutTemplate, nil
 	}
-	if layoutTemplate, err = provider.Base(); err != nil {
+	if layoutTemplate, err = provider.cachedBase(); err != nil {
 		return nil, err
 	}
 	if layoutTemplate, err = layoutTemplate.Clone(); err != nil {
@@ -172,7 +190,7 @@ func (provider *Provider) view(layoutName, viewName string, key viewKey) (viewTe
 		return viewTemplate, nil
 	}
 	// create a new view
-	if layoutTemplate, err = provider.Layout(layoutName); err != nil {
+	if layoutTemplate, err = provider.cachedLayout(layoutName); err != nil {
 		return nil, err
 	}
 	if viewTemplate, err = layoutTemplate.Clone(); err != nil {
